@@ -169,6 +169,35 @@ func init() {
 			})
 		}
 		x.DefStrings("loadCaseReturns", loadRets)
+		x.Comment("store/store.go ReadFrom: the single-node guard: the call whose result is counted, the test, the error returned")
+		var guard []string
+		if fd := x.Func("store", "Store", "ReadFrom"); fd != nil {
+			counted := map[string]string{} // variable -> callee it was assigned from
+			for _, st := range fd.Body.List {
+				if a, ok := st.(*ast.AssignStmt); ok && len(a.Lhs) == 2 && len(a.Rhs) == 1 {
+					if c, ok := a.Rhs[0].(*ast.CallExpr); ok {
+						counted[x.Src(a.Lhs[0])] = x.Src(c.Fun)
+					}
+				}
+				is, ok := st.(*ast.IfStmt)
+				if !ok || len(is.Body.List) != 1 {
+					continue
+				}
+				r, ok := is.Body.List[0].(*ast.ReturnStmt)
+				if !ok || len(r.Results) != 2 || x.Src(r.Results[1]) != "ErrNotSingleNode" {
+					continue
+				}
+				cond := x.Src(is.Cond)
+				src := "?"
+				for v, callee := range counted {
+					if strings.Contains(cond, "len("+v+")") {
+						src = callee
+					}
+				}
+				guard = append(guard, src, cond, x.Src(r.Results[1]))
+			}
+		}
+		x.DefStrings("bootGuard", guard)
 		x.Comment("store/store.go fsmSnapshot: the kind of snapshot is decided by reading what is due next")
 		if fd := x.Func("store", "Store", "fsmSnapshot"); fd != nil {
 			steps := x.callSeq(fd.Body, "s.snapshotDueNext")
